@@ -61,7 +61,7 @@ type family struct {
 	ifaces []idef
 }
 
-var methodPool = []string{"M0", "M1", "M2", "u3", "u4"}
+var methodPool = []string{"M0", "M1", "M2", "u3", "u4", "double", "delete"} // the last two are reserved words in JavaScript
 
 func genFamily(rt *rapid.T) family {
 	var f family
